@@ -123,16 +123,21 @@ package s2
 
 // Polygon.iteratorContainsPoint: contract in vc_contains_verif.go (C04)
 
+// what a polygon's own built index holds for every index cell: a non-nil cell whose clipped shapes are non-nil, the first
+// being the polygon itself (shape id 0), with stored endpoints shared by consecutive clipped edges (see vc_contains_verif.go)
+//@ spec func vcPolyCellOK(p *Polygon, c *ShapeIndexCell) bool = c != nil && len(c.shapes) >= 1 && (forall j int :: 0 <= j && j < len(c.shapes) ==> c.shapes[j] != nil) && c.shapes[0].shapeID == 0 && vcSharedEndpointsIdentical(p.index.Shape(0), c.shapes[0].edges)
+//@ spec func vcPolyIndexOK(p *Polygon) bool = p.index.shapes != nil && p.index.Shape(0) != nil && (forall k int :: 0 <= k && k < len(p.index.cells) ==> vcPolyCellOK(p, p.index.cellMap[p.index.cells[k]]))
+
 // A cell can only be reported as contained when it lies inside a single index cell (relation Indexed): a cell the index
 // subdivides has edges through it. An interior covering made of such cells would stick out of the polygon.
 //@ func (p *Polygon) ContainsCell(cell Cell) bool
-//@   requires p != nil && vcSI(p.index) && !vcHeld(&p.index.mu) && p.index.status == fresh && vcIdx(p.index) && vcValid(cell.id)
+//@   requires p != nil && vcSI(p.index) && !vcHeld(&p.index.mu) && p.index.status == fresh && vcIdx(p.index) && vcValid(cell.id) && vcPolyIndexOK(p)
 //@   modifies p.index.cells, p.index.cellMap, p.index.pendingRemovals, p.index.pendingAdditionsPos, p.index.status
 //@   ensures [only-inside-one-index-cell] result ==> (exists k int :: 0 <= k && k < len(p.index.cells) && p.index.cells[k].Contains(cell.id))
 
 // ... and a cell disjoint from every index cell does not intersect the polygon, a cell the index subdivides does
 //@ func (p *Polygon) IntersectsCell(cell Cell) bool
-//@   requires p != nil && vcSI(p.index) && !vcHeld(&p.index.mu) && p.index.status == fresh && vcIdx(p.index) && vcValid(cell.id)
+//@   requires p != nil && vcSI(p.index) && !vcHeld(&p.index.mu) && p.index.status == fresh && vcIdx(p.index) && vcValid(cell.id) && vcPolyIndexOK(p)
 //@   modifies p.index.cells, p.index.cellMap, p.index.pendingRemovals, p.index.pendingAdditionsPos, p.index.status
 //@   ensures [disjoint-from-index] (forall k int :: 0 <= k && k < len(p.index.cells) ==> !p.index.cells[k].Intersects(cell.id)) ==> !result
 //@   ensures [index-cell-itself] (exists k int :: 0 <= k && k < len(p.index.cells) && p.index.cells[k] == cell.id) ==> result
